@@ -186,20 +186,27 @@ def derived_refs(space):
 
 
 def rebind(value, definer, deriver, mode):
-    """Static derivation of an object-valued reference (C10 rule as far as the statement covers it,
-    extended by position arithmetic for objects inside the definer's tree when the deriver has the
-    corresponding object).  Returns (value, judged) where judged tells whether the statement covers it.
+    """Static derivation of an object-valued reference.
+
+    Returns (value, is_relative, known).  known=False where the statement is silent (a target that is a
+    descendant of the definer: child spaces are not inherited, so the deriver has no corresponding object).
     """
-    if not isinstance(value, (RSpace, RCells)) or definer is deriver:
-        return value, True
+    if not isinstance(value, (RSpace, RCells)) and not (isinstance(value, tuple) and value and value[0] == "cells-of"):
+        return value, mode != "absolute", True
+    if definer is deriver:
+        return value, mode != "absolute", True
     if mode == "absolute":
-        return value, True
-    tspace = value if isinstance(value, RSpace) else value.space
+        return value, False, True
+    if isinstance(value, tuple):
+        tspace, cname = value[1], value[2]
+    else:
+        tspace = value if isinstance(value, RSpace) else value.space
+        cname = None if isinstance(value, RSpace) else value.name
     if tspace is definer:
-        if isinstance(value, RSpace):
-            return deriver, True
-        dc = derived_cells(deriver).get(value.name)
-        return (("cells-of", deriver, value.name) if dc else None), True
+        if cname is None:
+            return deriver, True, True
+        dc = derived_cells(deriver).get(cname)
+        return (("cells-of", deriver, cname) if dc else None), True, True
     if tspace is not None and tspace.is_in(definer):
-        return value, False    # descendant target under static derivation: statement is silent
-    return value, True         # outside: keeps the original
+        return value, True, False
+    return value, False, True
